@@ -10,6 +10,7 @@ CONSTANTS
   TG = "t22d"
   LAYOUTS = {"dfs", "hole"}
   EMIT = TRUE
+VIEW View
 INVARIANTS LawArith ResultWellFormed
 ACTION_CONSTRAINT Emit
 CHECK_DEADLOCK FALSE
